@@ -34,6 +34,32 @@ def gadget(meaning_pos, closure_vars=None, extra_requires=()):
     }
 
 
+FWF = ['F._numvar >= 0', 'cmaxabs(F._clauses) <= F._numvar', 'not chaszero(F._clauses)']
+VBLOCK = 'apseq((v - 1) * k + 1, k)'
+
+
+def wrapper(closure, meaning, numvar='k * F._numvar', raises=None, loops=None, params=None, extra_requires=()):
+    """contract of a substitution transformation built as  newF.add_clauses_from(apply_substitution(F, <closure>))"""
+    ind = 'aind(a, gadid("{}"))'.format(closure)
+    return {
+        'property': ['C05', 'C10', 'C19'],
+        'params': params or {'F': 'obj:CNF', 'k': 'int'},
+        'ghost_params': {'a': 'asg'},
+        'requires': FWF + list(extra_requires),
+        'raises': {'ValueError': 'k < 1'} if raises is None else raises,
+        'loops': loops if loops is not None else {
+            0: {'inv': ['newF._numvar == k * _it', 'newF._clauses == cnil'],
+                'modifies_objects': ['newF'], 'modifies_fields': {'newF': ['_numvar']}}},
+        'ensures': [
+            'sat(a, result._clauses) == sat({}, F._clauses)'.format(ind),
+            'forall(lambda v: implies(1 <= v and v <= F._numvar, lit_true({}, v) == ({})))'.format(ind, meaning.format(B=VBLOCK)),
+            'result._numvar == ' + numvar,
+            'cmaxabs(result._clauses) <= result._numvar', 'not chaszero(result._clauses)',
+            'F._clauses == old(F._clauses)', 'F._numvar == old(F._numvar)',
+        ],
+    }
+
+
 CONTRACTS = {
     (C, 'CNF.__init__'): {
         # proved: the constructor chain CNF -> CNFLinear -> BaseCNF (+ VariablesManager) yields the empty formula over
@@ -99,4 +125,49 @@ CONTRACTS = {
     },
     # or of the block
     (S, 'OrSubstitution.orify'): gadget('count(a, {}) >= 1'.format(BLOCK)),
+    ('cnfgen/formula/basecnf.py', 'BaseCNF.number_of_variables'): {'inline_always': True},
+    ('cnfgen/localtypes.py', 'positive_int'): {'inline_always': True},
+    (S, 'escape_curly'): {'assumed': 'string helper (text only; strings are opaque)', 'params': {'text': 'any'}, 'returns_expr': '"<str>"'},
+    (S, 'add_description'): {'assumed': 'writes only the header dictionary of F (frame checked by the effects tier, C19)',
+                             'params': {'F': 'obj:CNF', 'text': 'any'}},
+    ('cnfgen/formula/variables.py', 'VariablesManager.all_variable_labels'): {
+        'assumed': 'one label per variable: the generator yields exactly number_of_variables() strings (C11 bounded tier: label alignment)',
+        'params': {'default_label_format': 'any'}, 'returns': 'lines', 'ensures': ['len(result) == self._numvar']},
+    ('cnfgen/formula/variables.py', 'VariablesManager.new_block'): {
+        'assumed': 'group allocation (C11: BlockOfVariables constructor and _add_variable_group are proved in variables_groups.py): '
+                   'a one-dimensional block of k fresh variables raises the variable count by k and adds no clause',
+        'params': {'label': 'any'},
+        'requires': ['len(ranges) == 1', 'ranges[0] >= 1'],
+        'modifies': ['self._numvar'],
+        'ensures': ['self._numvar == old(self._numvar) + ranges[0]'],
+    },
+    # C05 layer 3: whole transformations.  For every CNF F (well formed), every arity and every assignment a of the new
+    # variables: a satisfies the result iff the induced assignment - variable v true iff the gadget applied to block v is
+    # true under a - satisfies F; the result has exactly the documented number of variables, is well formed, F is untouched.
+    (S, 'XorSubstitution'): wrapper('xorify', 'count(a, {B}) % 2 == 1'),
+    (S, 'MajoritySubstitution'): wrapper('majorify', '2 * count(a, {B}) >= k'),
+    (S, 'OrSubstitution'): wrapper('orify', 'count(a, {B}) >= 1'),
+    # C05 layer 2: the generator that distributes the gadget CNFs over every clause.  `subst` is an arbitrary pure function
+    # literal -> CNF (gad(subst, l)); the clauses yielded are, clause by clause and in order, the distribution
+    # (cartesian product, flattened) of [gad(l) for l in clause] - hence (Lean L8/L9, instantiated in the VC) they hold
+    # under an assignment iff every clause of the formula has a literal whose gadget CNF holds.
+    (S, 'apply_substitution'): {
+        'property': ['C05'],
+        'params': {'formula': 'obj:CNF', 'subst': 'fn:gad'},
+        'ghost_params': {'a': 'asg'},
+        'yield_acc': True,
+        'locals': {'substitutions': 'ctab'},
+        'requires': ['formula._numvar >= 0', 'cmaxabs(formula._clauses) <= formula._numvar', 'not chaszero(formula._clauses)'],
+        'raises': {},
+        'loops': {
+            0: {'inv': ['i == 1 + _it', 'len(substitutions) == 2 * N + 1', 'N == formula._numvar',
+                        'forall(lambda j: implies(1 <= j and j < i, substitutions[j] == gad(subst, j)), lambda j: gad(subst, j))',
+                        'forall(lambda j: implies(-i < j and j <= -1, substitutions[2 * N + 1 + j] == gad(subst, j)), lambda j: gad(subst, j))']},
+            1: {'ghost_at_entry': {'C0': '_iter'},
+                'inv': ['_ys == cdistall(subst, C0, _it)']},
+        },
+        'returns': 'cseq',          # the value of the generator = the sequence of clauses it yields
+        'ensures': ['result == cdistall(subst, formula._clauses, clen(formula._clauses))',
+                    'sat(a, result) == satind(a, subst, formula._clauses, clen(formula._clauses))'],
+    },
 }
